@@ -97,6 +97,9 @@ v('C07', 'fire', KA, 'cho_solve((L, True), HP', 'cho_solve((L, False), HP')
 v('C07', 'fire', KA, 'S = HP @ H.T + R', 'S = HP @ H.T')
 v('C07 C19', 'fire', KA, 'K = cho_solve((L, True), HP, overwrite_b=True).T', 'K = cho_solve((L, True), P, overwrite_b=True).T')
 v('C07', 'silent', KA, 'U = np.eye(len(x)) - K.dot(H)', 'U = np.identity(len(x)) - K @ H')
+v('C19 C14', 'fire', 'inertial_sensor.py', 'return cls(transform, bias, model.noise, model.bias_walk, rng)', 'return cls(transform=transform, bias=bias, noise=model.noise,\n                   bias_walk=model.bias_walk)', 'seeded C19 round 2: generator no longer forwarded to the constructor')
+v('C19', 'silent', 'inertial_sensor.py', 'return cls(transform, bias, model.noise, model.bias_walk, rng)', 'return cls(transform=transform, bias=bias, noise=model.noise,\n                   bias_walk=model.bias_walk, rng=rng)', 'keyword form that forwards the generator')
+v('C19', 'fire', 'error_model.py', '        result[:, 5, 5] = -VN\n        return result if is_series else result[0]', '        result[:, 5, 5] = -VN\n        return result if is_series else -result[0]', 'Series arm of the 2-D embedding edited alone')
 v('C03', 'fire', 'sim.py', 'rn, _, _ = earth.principal_radii(np.rad2deg(lat), alt)', '_, rn, _ = earth.principal_radii(np.rad2deg(lat), alt)', 'initial-position form: latitude integrated with the east radius')
 v('C03', 'fire', 'sim.py', 'rn, _, _ = earth.principal_radii(np.rad2deg(lat), alt)', 'rn, _, _ = earth.principal_radii(lat, alt)', 'initial-position form: radians handed to principal_radii')
 v('C03', 'fire', 'sim.py', 'VU_spline = CubicSpline(time, -velocity_n[:, 2])', 'VU_spline = CubicSpline(time, velocity_n[:, 2])', 'initial-position form: altitude integrates +VD')
